@@ -303,3 +303,10 @@ V("twin: mask alias and incremental filter in the handler", "C18", SHAPES,
   "                if isinstance(other, SegmentCollection):\n                    other = cast(SegmentTensor, other[~e.dependent_values])\n                result = cast(PlaneTensor, self._plane[~e.dependent_values]).meet(other._line)\n                return list(\n                    result[\n                        PolygonCollection.from_tensor(self[~e.dependent_values]).contains(result)\n                        & other.contains(result)\n                    ]\n                )",
   "                independent = ~e.dependent_values\n                if isinstance(other, SegmentCollection):\n                    other = cast(SegmentTensor, other[independent])\n                plane = cast(PlaneTensor, self._plane[independent])\n                result = plane.meet(other._line)\n                keep = PolygonCollection.from_tensor(self[independent]).contains(result)\n                keep = keep & other.contains(result)\n                return list(result[keep])",
   "silent")
+
+# ------------------------------------------------------------------------------------------------ twins for MRO / absence based rules
+V("twin: __radd__ bound by a class-body alias", "C19", BASE, "    def __radd__(self, other: Tensor | npt.ArrayLike) -> Tensor:\n        return self + other\n", "    __radd__ = __add__\n", "silent")
+V("twin: element class inherited from an intermediate base", "C04", POINT, "class PointCollection(PointTensor, TensorCollection[Point]):\n    _element_class = Point",
+  "class _PointCollectionBase(PointTensor, TensorCollection[Point], ABC):\n    _element_class = Point\n\n\nclass PointCollection(_PointCollectionBase):\n    pass", "silent")
+V("twin: supporting line refreshed by a method called on the result", "C06", SHAPES, "        result = super().__apply__(transformation)\n        result._line = transformation.apply(result._line)\n        return result",
+  "        result = super().__apply__(transformation)\n        result._refresh_line()\n        return result\n\n    def _refresh_line(self) -> None:\n        self._line = join(*self.vertices)", "silent")
